@@ -17,6 +17,23 @@ KNOWN_FILE = os.path.join(VERIF, "known_findings.json")
 OUT = os.environ.get("VERIF_OUT", VERIF)
 
 
+class HarnessError(BaseException):
+    """raised when the check's own code fails: never a verdict (the task ends as an error, exit 2)"""
+
+
+def guard_repo_exception(ex):
+    """Called by replay functions before they report 'the code under test raised ...': the exception must have passed
+    through a frame of the code under test.  An exception raised by the check's own driver / oracle (a typo, a wrong
+    call) would otherwise be 'reproduced' by the replay - which runs the same driver - and be reported as a violation."""
+    root = os.environ.get("VERIF_REPO", "/repo").rstrip("/") + "/"
+    tb = ex.__traceback__
+    while tb is not None:
+        if tb.tb_frame.f_code.co_filename.startswith(root):
+            return
+        tb = tb.tb_next
+    raise HarnessError(f"exception raised outside the code under test: {type(ex).__name__}: {ex}")
+
+
 def load_known(prop):
     try:
         with open(KNOWN_FILE) as f:
